@@ -14,10 +14,37 @@ import (
 // be searched for secrets. Values of the harness's own types (handlers, the random source) are not followed.
 
 type region struct {
-	ptr  uintptr
-	b    []byte // a view of the live memory for slices, a copy for values that are not addressable
-	path string
-	big  bool
+	ptr   uintptr
+	b     []byte // a view of the live memory for slices, a copy for values that are not addressable
+	path  string
+	big   bool
+	words []uint // big.Int: a view of the live limb array (b is its big-endian rendering at scan time)
+}
+
+// current: the bytes of the region as they are now (a region may have been wiped since it was scanned)
+func (r *region) current() []byte {
+	if !r.big {
+		return r.b
+	}
+	b := make([]byte, 8*len(r.words))
+	for i, w := range r.words {
+		binary.BigEndian.PutUint64(b[(len(r.words)-1-i)*8:], uint64(w))
+	}
+	return b
+}
+
+// holds: is the memory starting at p part of what this scan reached
+func (sc *scanner) holds(p uintptr) bool {
+	for _, r := range sc.regions {
+		n := uintptr(len(r.b))
+		if r.big {
+			n = uintptr(8 * len(r.words))
+		}
+		if r.ptr != 0 && p >= r.ptr && p < r.ptr+n {
+			return true
+		}
+	}
+	return false
 }
 
 type scanner struct {
@@ -82,7 +109,7 @@ func (sc *scanner) walk(v reflect.Value, path string) {
 				for i, w := range words {
 					binary.BigEndian.PutUint64(b[(len(words)-1-i)*8:], uint64(w))
 				}
-				sc.regions = append(sc.regions, region{abs.Pointer(), b, path, true})
+				sc.regions = append(sc.regions, region{abs.Pointer(), b, path, true, words})
 			}
 			return
 		}
@@ -99,7 +126,7 @@ func (sc *scanner) walk(v reflect.Value, path string) {
 		sc.nonNil[path] = true
 		if t.Elem().Kind() == reflect.Uint8 {
 			if v.Cap() > 0 {
-				sc.regions = append(sc.regions, region{v.Pointer(), unsafe.Slice((*byte)(unsafe.Pointer(v.Pointer())), v.Cap()), path, false})
+				sc.regions = append(sc.regions, region{v.Pointer(), unsafe.Slice((*byte)(unsafe.Pointer(v.Pointer())), v.Cap()), path, false, nil})
 			}
 			return
 		}
@@ -119,13 +146,13 @@ func (sc *scanner) walk(v reflect.Value, path string) {
 	case reflect.Array:
 		if t.Elem().Kind() == reflect.Uint8 {
 			if v.CanAddr() {
-				sc.regions = append(sc.regions, region{v.UnsafeAddr(), unsafe.Slice((*byte)(unsafe.Pointer(v.UnsafeAddr())), v.Len()), path, false})
+				sc.regions = append(sc.regions, region{v.UnsafeAddr(), unsafe.Slice((*byte)(unsafe.Pointer(v.UnsafeAddr())), v.Len()), path, false, nil})
 			} else {
 				b := make([]byte, v.Len())
 				for i := range b {
 					b[i] = byte(v.Index(i).Uint())
 				}
-				sc.regions = append(sc.regions, region{0, b, path, false})
+				sc.regions = append(sc.regions, region{0, b, path, false, nil})
 			}
 			return
 		}
@@ -143,7 +170,7 @@ func (sc *scanner) walk(v reflect.Value, path string) {
 		}
 	case reflect.String:
 		if s := v.String(); len(s) > 0 {
-			sc.regions = append(sc.regions, region{0, []byte(s), path, false})
+			sc.regions = append(sc.regions, region{0, []byte(s), path, false, nil})
 		}
 	}
 }
@@ -158,6 +185,21 @@ func (sc *scanner) find(secret []byte) []string {
 	for _, r := range sc.regions {
 		if bytes.Contains(r.b, t) {
 			out = append(out, r.path)
+		}
+	}
+	return out
+}
+
+// findRegions: the regions that contain the secret
+func (sc *scanner) findRegions(secret []byte) []*region {
+	t := bytes.TrimLeft(secret, "\x00")
+	if len(t) < 5 {
+		return nil
+	}
+	var out []*region
+	for i := range sc.regions {
+		if bytes.Contains(sc.regions[i].b, t) {
+			out = append(out, &sc.regions[i])
 		}
 	}
 	return out
